@@ -8,6 +8,7 @@ additive over concatenation; the additivity axiom is instantiated at every conca
 decomposition the code performs (a "measure" over string concatenation).
 """
 import ast
+import os
 
 try:
     import z3
@@ -30,7 +31,9 @@ def _s(v):
 
 
 def _fresh(interp, base):
-    return interp.st.fresh_str(base)
+    c = interp.st.fresh_str(base)
+    interp.st.ghost.setdefault('__pieces__', {})[c.get_id()] = c
+    return c
 
 
 # ------------------------------------------------------------------------------ counting measure
@@ -43,14 +46,25 @@ def count_fn(interp, ch):
     fns = _count_fns(interp)
     f = fns.get(ch)
     if f is None:
-        f = z3.Function('count_u%04x' % ord(ch), z3.StringSort(), z3.IntSort())   # (a name every solver can parse)
+        f = z3.Function('count[%r]' % ch, z3.StringSort(), z3.IntSort())
         fns[ch] = f
-        interp.st.axiom(f(z3.StringVal('')) == 0)
-        interp.st.axiom(f(z3.StringVal(ch)) == 1)
+        interp.st.assume(f(z3.StringVal('')) == 0)
+        interp.st.assume(f(z3.StringVal(ch)) == 1)
         # additivity over every concatenation / decomposition performed so far
-        for whole, parts in list(interp.st.ghost.get('__concats__', [])):
-            note_concat(interp, whole, parts, only=ch)
+        replay_concats(interp, lambda whole, parts: note_concat(interp, whole, parts, only=ch))
     return f
+
+
+def replay_concats(interp, fn):
+    """call fn(whole, parts) for every concatenation noted so far, under the merge scopes it was noted in"""
+    st = interp.st
+    saved = st.scopes
+    try:
+        for whole, parts, scopes in list(st.ghost.get('__concats__', [])):
+            st.scopes = list(scopes)
+            fn(whole, parts)
+    finally:
+        st.scopes = saved
 
 
 def _count_facts(interp, f, ch, t):
@@ -61,154 +75,30 @@ def _count_facts(interp, f, ch, t):
         return
     st.ghost[key] = t
     c = z3.StringVal(ch)
-    # instances of axioms of the counting function: valid in every context (not scoped)
-    st.axiom(z3.And(f(t) >= 0, f(t) <= z3.Length(t)))
-    # a string of one character: counts 1 iff it is that character
-    if st.len_must_hold(z3.Length(t) == 1):
-        st.axiom(z3.Implies(z3.Length(t) == 1, f(t) == z3.If(t == c, 1, 0)))
-
-
-# "every character satisfies P" for the character-class predicates of str: an additive measure into
-# (Bool, and).  s.isspace() is  s != '' and all_isspace(s)  (the empty string satisfies `all` vacuously).
-ALL_PREDS = {'isspace': True, 'isdigit': True, 'isalpha': True, 'isalnum': True, 'isdecimal': True,
-             'isnumeric': True, 'isprintable': False, 'isascii': False}      # name -> "and non-empty"
-
-
-def _all_fns(interp):
-    return interp.st.ghost.setdefault('__all_fns__', {})
-
-
-def _all_lit(name, sv):
-    if name.startswith('in_'):      # 'in_u0020u0009': every character is one of the listed ones
-        allowed = {chr(int(h, 16)) for h in name[3:].split('u') if h}
-        return all(c in allowed for c in sv)
-    return all(getattr(c, name)() for c in sv)
-
-
-def all_in_name(chars):
-    return 'in_' + ''.join('u%04x' % ord(c) for c in sorted(set(chars)))
-
-
-def all_fn(interp, name):
-    fns = _all_fns(interp)
-    f = fns.get(name)
-    if f is None:
-        f = z3.Function('all_' + name, z3.StringSort(), z3.BoolSort())
-        fns[name] = f
-        interp.st.axiom(f(z3.StringVal('')))
-        for whole, parts in list(interp.st.ghost.get('__concats__', [])):
-            note_concat(interp, whole, parts, only=('all', name))
-    return f
-
-
-def all_term(interp, t, name):
-    """`every character of t satisfies str.<name>` as a boolean term, tied to the known pieces of t"""
-    st = interp.st
-    if z3.is_string_value(t):
-        return z3.BoolVal(_all_lit(name, _lit(t)))
-    f = all_fn(interp, name)
-    tn = norm(interp, t)
-    if not tn.eq(t):
-        st.assume(f(t) == f(tn))      # t == tn holds in the current context
-    fl = _flat_concat(tn)
-    if len(fl) > 1:
-        note_concat(interp, tn, fl, only=('all', name))
-    elif z3.is_string_value(tn):
-        st.assume(f(t) == _all_lit(name, _lit(tn)))
-    return f(t)
+    st.assume(z3.And(f(t) >= 0, f(t) <= z3.Length(t)))
+    # trusted lemma: count(s) == 0  <=>  ch not in s
+    st.assume((f(t) == 0) == z3.Not(z3.Contains(t, c)))
 
 
 def note_concat(interp, whole, parts, only=None):
-    """whole == concat(parts): instantiate additivity of every active measure (counting functions,
-    character-class predicates)."""
+    """whole == concat(parts): instantiate additivity of every active counting function."""
     if only is None:
-        interp.st.ghost.setdefault('__concats__', []).append((whole, list(parts)))
-    st = interp.st
-    cat = z3.Concat(*parts) if len(parts) > 1 else parts[0]
-    for name, f in _all_fns(interp).items():
-        if only is not None and only != ('all', name):
-            continue
-        vals = [z3.BoolVal(_all_lit(name, _lit(p))) if z3.is_string_value(p) else f(p) for p in parts]
-        add = f(whole) == (z3.And(*vals) if len(vals) > 1 else vals[0])
-        st.axiom(add if whole.eq(cat) else z3.Implies(whole == cat, add))
-    if isinstance(only, tuple):
-        return
+        interp.st.ghost.setdefault('__concats__', []).append((whole, list(parts), tuple(interp.st.scopes)))
+        from . import charclass
+        charclass.note_concat(interp, whole, parts)
     fns = _count_fns(interp)
     if not fns:
         return
+    st = interp.st
     for ch, f in fns.items():
         if only is not None and ch != only:
             continue
-        add = f(whole) == z3.Sum([f(p) for p in parts]) if len(parts) > 1 else f(whole) == f(parts[0])
-        # additivity, as an axiom instance that holds in every context: it carries the hypothesis
-        # whole == concat(parts) unless that is syntactically so
-        st.axiom(add if whole.eq(cat) else z3.Implies(whole == cat, add))
+        st.assume(f(whole) == z3.Sum([f(p) for p in parts]) if len(parts) > 1 else f(whole) == f(parts[0]))
         for p in list(parts) + [whole]:
             if z3.is_string_value(p):
-                st.axiom(f(p) == p.as_string().count(ch))
+                st.assume(f(p) == p.as_string().count(ch))
             else:
                 _count_facts(interp, f, ch, p)
-
-
-def count_term(interp, t, ch):
-    """number of occurrences of the single character ch in t, as an integer term; the facts that tie it to
-    the known pieces of t are added to the context.  Membership of a single character is expressed through
-    it as well (`ch in t`  is  count > 0: trusted lemma, listed in evidence), so that the solvers see linear
-    arithmetic over an additive measure instead of str.contains."""
-    st = interp.st
-    if z3.is_string_value(t):
-        return z3.IntVal(_lit(t).count(ch))
-    f = count_fn(interp, ch)
-    _count_facts(interp, f, ch, t)
-    tn = norm(interp, t)
-    if not tn.eq(t):
-        st.assume(f(t) == f(tn))      # t == tn holds in the current context
-    fl = _flat_concat(tn)
-    if len(fl) > 1:
-        note_concat(interp, tn, fl, only=ch)
-    elif not z3.is_string_value(tn):
-        _count_facts(interp, f, ch, tn)
-    else:
-        st.assume(f(t) == _lit(tn).count(ch))
-    return f(t)
-
-
-def contains_term(interp, t, u):
-    """`u in t` as a boolean term"""
-    if z3.is_string_value(u) and len(_lit(u)) == 1:
-        return count_term(interp, t, _lit(u)) > 0
-    return z3.Contains(norm(interp, t), norm(interp, u))
-
-
-def _is_count_app(t):
-    return z3.is_app(t) and t.num_args() == 1 and t.decl().name().startswith('count_u') and z3.is_string(t.arg(0))
-
-
-def _count_zero_fact(t):
-    """(x, ch) if the fact t says  count_ch(x) == 0  in one of the forms the simplifier produces"""
-    if not z3.is_app(t):
-        return None
-    k = t.decl().kind()
-    if k in (z3.Z3_OP_LE, z3.Z3_OP_EQ) and t.num_args() == 2:
-        a, b = t.children()
-        if _is_count_app(a) and z3.is_int_value(b) and b.as_long() == 0:
-            return a.arg(0), chr(int(a.decl().name()[7:], 16))
-        if k == z3.Z3_OP_EQ and _is_count_app(b) and z3.is_int_value(a) and a.as_long() == 0:
-            return b.arg(0), chr(int(b.decl().name()[7:], 16))
-    if k == z3.Z3_OP_NOT:
-        c = t.arg(0)
-        if z3.is_app(c) and c.num_args() == 2:
-            a, b = c.children()
-            kk = c.decl().kind()
-            if kk == z3.Z3_OP_GT and _is_count_app(a) and z3.is_int_value(b) and b.as_long() == 0:
-                return a.arg(0), chr(int(a.decl().name()[7:], 16))
-            if kk == z3.Z3_OP_GE and _is_count_app(a) and z3.is_int_value(b) and b.as_long() == 1:
-                return a.arg(0), chr(int(a.decl().name()[7:], 16))
-            if kk == z3.Z3_OP_LT and _is_count_app(b) and z3.is_int_value(a) and a.as_long() == 0:
-                return b.arg(0), chr(int(b.decl().name()[7:], 16))
-            if kk == z3.Z3_OP_LE and _is_count_app(b) and z3.is_int_value(a) and a.as_long() == 1:
-                return b.arg(0), chr(int(b.decl().name()[7:], 16))
-    return None
 
 
 def concat(interp, a, b):
@@ -217,6 +107,11 @@ def concat(interp, a, b):
     r = wrap(t)
     if isinstance(r, SStr):
         note_concat(interp, r.t, [ta, tb])
+        # other measures over explicit concatenation (pyvc.texts: line_body)
+        interp.st.ghost.setdefault('__explicit_concats__', []).append((r.t, [ta, tb]))
+        hook = interp.st.ghost.get('__on_concat__')
+        if hook is not None:
+            hook(interp, r.t, [ta, tb])
     return r
 
 
@@ -239,7 +134,31 @@ def _cat(pieces):
     return z3.Concat(*pieces)
 
 
-def _decomp_entry(interp, t):
+class Dec(list):
+    """A decomposition (list of pieces) of a string term, valid under the merge scopes it was created in
+    (decompositions made while evaluating the right operand of a merged `and`/`or` hold only there)."""
+    scopes = ()
+
+
+def _dec(interp, pieces, *parents):
+    d = Dec(pieces)
+    sc = {x.get_id(): x for x in interp.st.scopes}
+    for par in parents:
+        for x in getattr(par, 'scopes', ()):
+            sc[x.get_id()] = x
+    d.scopes = tuple(sc.values())
+    return d
+
+
+def _visible(interp, dec):
+    sc = getattr(dec, 'scopes', ())
+    if not sc:
+        return True
+    st = interp.st
+    return all(st.is_established(x) for x in sc)
+
+
+def _decomps(interp, t):
     d = interp.st.ghost.setdefault('__decomps__', {})
     ent = d.get(t.get_id())
     if ent is None:
@@ -247,27 +166,12 @@ def _decomp_entry(interp, t):
         d[t.get_id()] = ent
         fl = _flat_concat(t)
         if len(fl) > 1:
-            ent[1].append((frozenset(), fl))
-    return ent
+            ent[1].append(Dec(fl))
+    return ent[1]
 
 
-def _usable(interp, tagged):
-    """A decomposition created inside a merge scope (under a temporary assumption) is known only there:
-    it may be used again only where all those assumptions are in force."""
-    cur = interp.st._scope_ids()
-    return [pieces for (sc, pieces) in tagged if sc <= cur]
-
-
-def _decomps(interp, t):
-    """the decompositions of t that are known in the current context (most refined last)"""
-    return _usable(interp, _decomp_entry(interp, t)[1])
-
-
-def _add_decomp(interp, t, pieces, universal=False):
-    st = interp.st
-    st._keep = getattr(st, '_keep', [])
-    st._keep.extend(st.scopes)      # keep the scope terms alive: their ids identify them
-    _decomp_entry(interp, t)[1].append((frozenset() if universal else st._scope_ids(), list(pieces)))
+def _visible_decomps(interp, t):
+    return [d for d in _decomps(interp, t) if _visible(interp, d)]
 
 
 def norm(interp, t, depth=0):
@@ -285,10 +189,10 @@ def norm(interp, t, depth=0):
     ent = d.get(t.get_id())
     if ent is None or not ent[1]:
         return t
-    usable = _usable(interp, ent[1])
-    if not usable:
+    vis = [x for x in ent[1] if _visible(interp, x)]
+    if not vis:
         return t
-    pieces = usable[-1]
+    pieces = vis[-1]
     return _cat([x for p in pieces for x in _flat_concat(norm(interp, p, depth + 1))])
 
 
@@ -296,156 +200,10 @@ def _sn(interp, v):
     return norm(interp, _s(v))
 
 
-def _is_piece(t):
-    """a string constant without structure (a variable): may be given a decomposition"""
-    return z3.is_const(t) and not z3.is_string_value(t) and t.decl().kind() == z3.Z3_OP_UNINTERPRETED
-
-
-def _lit(p):
-    """python value of a z3 string literal"""
-    return p.as_string()
-
-
-def _note_not_containing(interp, x, ch):
-    st = interp.st
-    st._keep = getattr(st, '_keep', [])
-    st._keep.extend(st.scopes)
-    st.ghost.setdefault('__notin__', []).append((st._scope_ids(), x, ch))
-
-
-def _known_not_containing(interp, p, ch):
-    """is it a recorded fact of the current context that the piece p does not contain the character ch?"""
-    cur = interp.st._scope_ids()
-    for sc, x, c in interp.st.ghost.get('__notin__', ()):
-        if c != ch or not sc <= cur:
-            continue
-        if x.eq(p) or any(q.eq(p) for q in _flat_concat(norm(interp, x))):
-            return True
-    return False
-
-
-def _locate_single(interp, t, ch, reverse):
-    """Find the first (last) occurrence of the single character ch along the known pieces of t.
-    A piece that is not known to be free of ch is asked (case split on its count); if it has one it is
-    itself decomposed around its first (last) occurrence, so the result stays aligned with the pieces.
-    Returns ('at', before, after) with t == before . ch . after, or ('absent',)."""
-    st = interp.st
-    pieces = _flat_concat(norm(interp, t))
-    order = list(reversed(pieces)) if reverse else pieces
-    lit = z3.StringVal(ch)
-    for k, p in enumerate(order):
-        idx = len(pieces) - 1 - k if reverse else k
-        if z3.is_string_value(p):
-            sv = _lit(p)
-            if ch not in sv:
-                continue
-            i = sv.rindex(ch) if reverse else sv.index(ch)
-            head, tail = z3.StringVal(sv[:i]), z3.StringVal(sv[i + 1:])
-            return ('at', _cat(pieces[:idx] + [head]), _cat([tail] + pieces[idx + 1:]))
-        if _known_not_containing(interp, p, ch):
-            continue
-        if st.no_fork:
-            return None
-        n = count_term(interp, p, ch)
-        if st.fork(wrap(n > 0)):
-            a = _fresh(interp, 'upto')
-            b = _fresh(interp, 'after')
-            st.assume(p == z3.Concat(a, lit, b))
-            _add_decomp(interp, p, [a, lit, b])
-            note_concat(interp, p, [a, lit, b])
-            free = b if reverse else a
-            st.assume(count_term(interp, free, ch) == 0)
-            _note_not_containing(interp, free, ch)
-            return ('at', _cat(pieces[:idx] + [a]), _cat([b] + pieces[idx + 1:]))
-        _note_not_containing(interp, p, ch)
-    return ('absent',)
-
-
-def learn(interp, t, depth=0):
-    """A fact has just been added to the context (path condition or current scope).  String equalities
-    x == u with x a variable are remembered as the decomposition x = pieces(u), so that later slices of x
-    (and of strings x is a piece of) share their pieces with u syntactically."""
-    if depth > 4 or not z3.is_app(t):
-        return
-    k = t.decl().kind()
-    if k == z3.Z3_OP_AND:
-        for c in t.children():
-            learn(interp, c, depth + 1)
-        return
-    cz = _count_zero_fact(t)
-    if cz is not None:
-        _note_not_containing(interp, cz[0], cz[1])
-        return
-    if k != z3.Z3_OP_EQ:
-        return
-    a, b = t.children()
-    if not z3.is_string(a):
-        return
-    # x . common == pieces . common  says  x == pieces: strip what both sides share at their ends
-    pa = _flat_concat(norm(interp, a))
-    pb = _flat_concat(norm(interp, b))
-    st = interp.st
-
-    def empty(p):
-        return not z3.is_string_value(p) and st.len_must_hold(z3.Length(p) == 0)
-
-    while pa and pb:
-        if pa[-1].eq(pb[-1]):
-            pa.pop()
-            pb.pop()
-        elif empty(pa[-1]):
-            pa.pop()
-        elif empty(pb[-1]):
-            pb.pop()
-        else:
-            break
-    while pa and pb:
-        if pa[0].eq(pb[0]):
-            pa.pop(0)
-            pb.pop(0)
-        elif empty(pa[0]):
-            pa.pop(0)
-        elif empty(pb[0]):
-            pb.pop(0)
-        else:
-            break
-    # literal pieces that one side ends / starts with and the other side has as a longer literal
-    for x, u in ((pa, pb), (pb, pa)):
-        if len(x) == 1 and _is_atom(x[0]) and not _decomps(interp, x[0]):
-            if any(p.eq(x[0]) for p in u):
-                continue       # would be circular
-            _add_decomp(interp, x[0], u if u else [z3.StringVal('')])
-            return
-    for x, u in ((a, b), (b, a)):
-        if _is_piece(x) and not x.eq(u):
-            if _decomps(interp, x):
-                continue
-            un = norm(interp, u)
-            if any(p.eq(x) for p in _flat_concat(un)):
-                continue       # would be circular
-            _add_decomp(interp, x, _flat_concat(un))
-            return
-
-
-def _is_atom(t):
-    """a string term that is neither a literal nor a concatenation: a variable, an application of an
-    uninterpreted function, an array element"""
-    return z3.is_string(t) and not z3.is_string_value(t) and not (
-        z3.is_app(t) and t.decl().kind() == z3.Z3_OP_SEQ_CONCAT)
-
-
 def _len_of(p):
     if z3.is_string_value(p):
         return z3.IntVal(len(p.as_string()))
     return z3.Length(p)
-
-
-def _cut_inside(interp, t, pieces, offs, j, a, base):
-    """offset a of t falls inside piece j of the decomposition `pieces` (offs: its boundaries)"""
-    pa, pb = cut(interp, pieces[j], z3.simplify(a - offs[j]), base)
-    mid = [x for x in _flat_concat(pa) + _flat_concat(pb) if not (z3.is_string_value(x) and x.as_string() == '')]
-    _add_decomp(interp, t, pieces[:j] + mid + pieces[j + 1:])
-    return _cat(pieces[:j] + _flat_concat(pa)), _cat(_flat_concat(pb) + pieces[j + 1:])
 
 
 def cut(interp, t, a, base='piece'):
@@ -460,47 +218,67 @@ def cut(interp, t, a, base='piece'):
         sv = t.as_string()
         return z3.StringVal(sv[:a.as_long()]), z3.StringVal(sv[a.as_long():])
     decs = _decomps(interp, t)
-    for pieces in reversed(decs):       # newest (most refined / most recently learned) first
+    for pieces in _visible_decomps(interp, t):
         off = z3.IntVal(0)
         offs = [off]
         for p in pieces:
             off = z3.simplify(off + _len_of(p))
             offs.append(off)
         for j, o in enumerate(offs):
-            if o.eq(a) or (j > 0 and st.len_must_hold(o == a)):
+            if o.eq(a) or (j > 0 and st.must_hold_lengths(o == a)):
                 return _cat(pieces[:j]), _cat(pieces[j:])
         # inside a piece?
         for j, p in enumerate(pieces):
             if z3.is_string_value(p) and len(p.as_string()) <= 1:
                 continue
-            if st.len_must_hold(z3.And(offs[j] <= a, a <= offs[j + 1])):
-                return _cut_inside(interp, t, pieces, offs, j, a, base)
-    if decs and len(decs[-1]) > 1 and not st.no_fork and not getattr(interp, 'assuming', 0):
-        # (Not while a predicate is being assumed: what it says about a string that was cut differently
-        # before is just taken as a fact; a caller that needs the two views aligned cuts again later.)
-        # The offset is not known to be at a boundary or inside one particular piece: case split on where it
-        # falls (rather than a fresh split of t that is unrelated to its pieces: word equations between
-        # differently cut concatenations are what the solvers get lost in).
-        pieces = decs[-1]
-        off = z3.IntVal(0)
-        offs = [off]
-        for p in pieces:
-            off = z3.simplify(off + _len_of(p))
-            offs.append(off)
-        for j in range(len(pieces)):
-            if j == len(pieces) - 1 or st.fork(wrap(a <= offs[j + 1])):
-                if j == len(pieces) - 1:
-                    at_end = st.fork(wrap(a >= offs[j + 1]))
-                else:
-                    at_end = st.fork(wrap(a == offs[j + 1]))
-                if at_end:
-                    return _cat(pieces[:j + 1]), _cat(pieces[j + 1:])
-                return _cut_inside(interp, t, pieces, offs, j, a, base)
+            if st.must_hold_lengths(z3.And(offs[j] <= a, a <= offs[j + 1])):
+                pa, pb = cut(interp, p, z3.simplify(a - offs[j]), base)
+                refined = pieces[:j] + [x for x in (pa, pb)] + pieces[j + 1:]
+                decs.append(_dec(interp, refined, pieces))
+                return _cat(pieces[:j] + [pa]), _cat([pb] + pieces[j + 1:])
+    if st.ghost.get('__align__') and not st.no_fork and not getattr(interp, 'assuming', 0):
+        # (not while a predicate is being assumed: what it says about a string that was cut differently before is
+        # just taken as a fact; a caller that needs the two views aligned cuts again later)
+        vis = _visible_decomps(interp, t)
+        if vis and len(vis[-1]) > 1:
+            # The position is not located among the known pieces by lengths alone: case split on where it
+            # falls in the most refined decomposition (boundaries and interiors that the length abstraction
+            # does not exclude), then cut there.  Keeps one shared set of pieces per string.
+            pieces = vis[-1]
+            off = z3.IntVal(0)
+            offs = [off]
+            for pc_ in pieces:
+                off = z3.simplify(off + _len_of(pc_))
+                offs.append(off)
+            alts = []
+            for j in range(1, len(offs)):
+                alts.append(offs[j] == a)
+            for j, pc_ in enumerate(pieces):
+                if z3.is_string_value(pc_) and len(pc_.as_string()) <= 1:
+                    continue
+                if pc_.get_id() in st.ghost.get('__len1__', {}):
+                    continue
+                alts.append(z3.And(offs[j] < a, a < offs[j + 1]))
+            other = z3.Not(z3.Or(*alts)) if alts else None      # (e.g. position 0: no piece is cut)
+            alts = [c for c in alts if st._len_check(c) != z3.unsat]
+            if alts:
+                depth = st.ghost.get('__align_depth__', 0)
+                if depth < 4:
+                    st.ghost['__align_depth__'] = depth + 1
+                    try:
+                        all_alts = alts + ([other] if st._len_check(other) != z3.unsat else [])
+                        k = st.choose(len(all_alts), all_alts, assume_feasible=True)
+                        if k < len(alts):
+                            return cut(interp, t, a, base)
+                    finally:
+                        st.ghost['__align_depth__'] = depth
     p = _fresh(interp, base)
     q = _fresh(interp, base)
     st.assume(t == z3.Concat(p, q))
     st.assume(z3.Length(p) == a)
-    _add_decomp(interp, t, [p, q])
+    if z3.is_int_value(a) and a.as_long() == 1:
+        known_single_char(interp, p)
+    decs.append(_dec(interp, [p, q]))
     note_concat(interp, t, [p, q])
     return p, q
 
@@ -550,7 +328,9 @@ def _decompose_free(interp, t, lens, base):
     for p, n in zip(pieces, lens):
         if n is not None:
             st.assume(z3.Length(p) == _z(n))
-    _add_decomp(interp, t, pieces)
+            if isinstance(n, int) and n == 1:
+                known_single_char(interp, p)
+    _decomps(interp, t).append(_dec(interp, list(pieces)))
     note_concat(interp, t, pieces)
     return pieces
 
@@ -565,11 +345,11 @@ def _norm_index(i, L, interp=None):
         return i
     if interp is not None:
         st = interp.st
-        if st.len_must_hold(i >= 0):
-            if st.len_must_hold(i <= L):
+        if st.must_hold_lengths(i >= 0):
+            if st.must_hold_lengths(i <= L):
                 return i
             return z3.If(i > L, L, i)
-        if st.len_must_hold(i < 0) and st.len_must_hold(i + L >= 0):
+        if st.must_hold_lengths(i < 0) and st.must_hold_lengths(i + L >= 0):
             return i + L
     return z3.If(i < 0, z3.If(i + L < 0, 0, i + L), z3.If(i > L, L, i))
 
@@ -585,9 +365,16 @@ def getitem(interp, s, idx):
         a = z3.IntVal(0) if idx.start is None else z3.simplify(_norm_index(idx.start, L, interp))
         b = z3.simplify(L) if idx.stop is None else z3.simplify(_norm_index(idx.stop, L, interp))
         key = (t.get_id(), a.sexpr(), b.sexpr())
-        if key in cache and cache[key][2] <= st._scope_ids():
+        if key in cache and _visible(interp, cache[key][2]):
             return cache[key][0]
-        if st.len_must_hold(b >= a):
+        # a slice of the same string whose bounds are provably (by lengths) the same: the same value
+        # (only with string alignment switched on: costs two length questions per cached slice)
+        for k2, ent in (list(cache.items()) if st.ghost.get('__align__') else ()):
+            if k2[0] == t.get_id() and len(ent) > 3 and _visible(interp, ent[2]):
+                a2, b2 = ent[3]
+                if (a2.eq(a) or st.must_hold_lengths(a2 == a)) and (b2.eq(b) or st.must_hold_lengths(b2 == b)):
+                    return ent[0]
+        if st.must_hold_lengths(b >= a):
             mid_len = z3.simplify(b - a)
             a_len = a
         else:
@@ -602,7 +389,7 @@ def getitem(interp, s, idx):
         else:
             p, m, r = decompose(interp, t, [a_len, mid_len, None], 'slice')
             res = wrap(m)
-        cache[key] = (res, t, st._scope_ids())
+        cache[key] = (res, t, _dec(interp, []), (a, b))
         return res
     i = _s(idx)
     if st.fork(wrap(z3.And(i >= 0, i < L))):
@@ -614,20 +401,286 @@ def getitem(interp, s, idx):
     raise _pyraise(IndexError('string index out of range'))
 
 
+
+# ------------------------------------------------------------------------------ alignment with the known pieces
+# (opt-in per sidecar module: `M.string_alignment = True` sets st.ghost['__align__'])
+#
+# With alignment on, positions (cut), single-character searches (find / split / partition) and string
+# equalities are related to the pieces a string is already known to consist of -- by case split where
+# necessary -- instead of introducing a fresh, unrelated decomposition of the same string: word equations
+# between differently cut concatenations are what the solvers get lost in.
+
+def aligning(interp):
+    return bool(interp.st.ghost.get('__align__'))
+
+
+def _lit(p):
+    """python value of a z3 string literal"""
+    return p.as_string()
+
+
+def _is_piece(t):
+    """a string constant without structure (a variable): may be given a decomposition"""
+    return z3.is_const(t) and not z3.is_string_value(t) and t.decl().kind() == z3.Z3_OP_UNINTERPRETED
+
+
+def _is_atom(t):
+    """a string term that is neither a literal nor a concatenation: a variable, an application of an
+    uninterpreted function, an array element"""
+    return z3.is_string(t) and not z3.is_string_value(t) and not (
+        z3.is_app(t) and t.decl().kind() == z3.Z3_OP_SEQ_CONCAT)
+
+
+def count_term(interp, t, ch):
+    """number of occurrences of the single character ch in t, as an integer term; the facts that tie it to
+    the known pieces of t are added to the context"""
+    st = interp.st
+    if z3.is_string_value(t) and not _has_escape_val(t):
+        return z3.IntVal(_lit(t).count(ch))
+    f = count_fn(interp, ch)
+    _count_facts(interp, f, ch, t)
+    tn = norm(interp, t)
+    if not tn.eq(t):
+        st.assume(f(t) == f(tn))      # t == tn holds in the current context
+    fl = _flat_concat(tn)
+    if len(fl) > 1:
+        note_concat(interp, tn, fl, only=ch)
+    elif not z3.is_string_value(tn):
+        _count_facts(interp, f, ch, tn)
+    elif not _has_escape_val(tn):
+        st.assume(f(t) == _lit(tn).count(ch))
+    return f(t)
+
+
+def _count_app(interp, t):
+    """(string term, character) if t is an application of a counting function"""
+    if z3.is_app(t) and t.num_args() == 1 and z3.is_string(t.arg(0)) and t.decl().kind() == z3.Z3_OP_UNINTERPRETED:
+        for ch, f in _count_fns(interp).items():
+            if t.decl().eq(f):
+                return t.arg(0), ch
+    return None
+
+
+def _count_zero_fact(interp, t):
+    """(x, ch) if the fact t says  count_ch(x) == 0  in one of the forms the simplifier produces"""
+    if not z3.is_app(t):
+        return None
+    k = t.decl().kind()
+    if k in (z3.Z3_OP_LE, z3.Z3_OP_EQ) and t.num_args() == 2:
+        a, b = t.children()
+        if z3.is_int_value(b) and b.as_long() == 0:
+            return _count_app(interp, a)
+        if k == z3.Z3_OP_EQ and z3.is_int_value(a) and a.as_long() == 0:
+            return _count_app(interp, b)
+    if k == z3.Z3_OP_NOT:
+        c = t.arg(0)
+        if z3.is_app(c) and c.num_args() == 2:
+            a, b = c.children()
+            kk = c.decl().kind()
+            if kk == z3.Z3_OP_GT and z3.is_int_value(b) and b.as_long() == 0:
+                return _count_app(interp, a)
+            if kk == z3.Z3_OP_GE and z3.is_int_value(b) and b.as_long() == 1:
+                return _count_app(interp, a)
+            if kk == z3.Z3_OP_LT and z3.is_int_value(a) and a.as_long() == 0:
+                return _count_app(interp, b)
+            if kk == z3.Z3_OP_LE and z3.is_int_value(a) and a.as_long() == 1:
+                return _count_app(interp, b)
+            if kk == z3.Z3_OP_SEQ_CONTAINS and z3.is_string_value(b) and not _has_escape_val(b) and len(_lit(b)) == 1:
+                return a, _lit(b)
+    return None
+
+
+def _note_not_containing(interp, x, ch):
+    interp.st.ghost.setdefault('__notin__', []).append((_dec(interp, []), x, ch))
+
+
+def _known_not_containing(interp, p, ch):
+    """is it a recorded fact of the current context that the piece p does not contain the character ch?"""
+    for d, x, c in interp.st.ghost.get('__notin__', ()):
+        if c != ch or not _visible(interp, d):
+            continue
+        if x.eq(p) or any(q.eq(p) for q in _flat_concat(norm(interp, x))):
+            return True
+    return False
+
+
+def _locate_single(interp, t, ch, reverse):
+    """Find the first (last) occurrence of the single character ch along the known pieces of t.
+    A piece that is not known to be free of ch is asked (case split on its count); if it has one it is
+    itself decomposed around its first (last) occurrence, so the result stays aligned with the pieces.
+    Returns ('at', before, after) with t == before . ch . after, or ('absent',); None where no case split
+    is possible."""
+    st = interp.st
+    pieces = _flat_concat(norm(interp, t))
+    order = list(reversed(pieces)) if reverse else pieces
+    lit = z3.StringVal(ch)
+    for k, p in enumerate(order):
+        idx = len(pieces) - 1 - k if reverse else k
+        if z3.is_string_value(p):
+            if _has_escape_val(p):
+                return None
+            sv = _lit(p)
+            if ch not in sv:
+                continue
+            i = sv.rindex(ch) if reverse else sv.index(ch)
+            head, tail = z3.StringVal(sv[:i]), z3.StringVal(sv[i + 1:])
+            return ('at', _cat(pieces[:idx] + [head]), _cat([tail] + pieces[idx + 1:]))
+        if _known_not_containing(interp, p, ch):
+            continue
+        if st.no_fork:
+            return None
+        n = count_term(interp, p, ch)
+        if st.fork(wrap(n > 0)):
+            a = _fresh(interp, 'upto')
+            b = _fresh(interp, 'after')
+            st.assume(p == z3.Concat(a, lit, b))
+            _decomps(interp, p).append(_dec(interp, [a, lit, b]))
+            note_concat(interp, p, [a, lit, b])
+            free = b if reverse else a
+            st.assume(count_term(interp, free, ch) == 0)
+            _note_not_containing(interp, free, ch)
+            return ('at', _cat(pieces[:idx] + [a]), _cat([b] + pieces[idx + 1:]))
+        _note_not_containing(interp, p, ch)
+    return ('absent',)
+
+
+def learn(interp, t, depth=0):
+    """A fact has just been added to the context (path condition or current scope).  With alignment on, string
+    equalities x == u with x a variable are remembered as the decomposition x = pieces(u), so that later slices
+    of x (and of strings x is a piece of) share their pieces with u syntactically; `count(x) == 0` facts are
+    remembered for the piece-wise search."""
+    if depth > 4 or not z3.is_app(t) or not aligning(interp):
+        return
+    k = t.decl().kind()
+    if k == z3.Z3_OP_AND:
+        for c in t.children():
+            learn(interp, c, depth + 1)
+        return
+    cz = _count_zero_fact(interp, t)
+    if cz is not None:
+        _note_not_containing(interp, cz[0], cz[1])
+        return
+    if k != z3.Z3_OP_EQ:
+        return
+    a, b = t.children()
+    if not z3.is_string(a):
+        return
+    # x . common == pieces . common  says  x == pieces: strip what both sides share at their ends
+    pa = _flat_concat(norm(interp, a))
+    pb = _flat_concat(norm(interp, b))
+    st = interp.st
+
+    def empty(p):
+        return not z3.is_string_value(p) and st.must_hold_lengths(z3.Length(p) == 0)
+
+    while pa and pb:
+        if pa[-1].eq(pb[-1]):
+            pa.pop()
+            pb.pop()
+        elif empty(pa[-1]):
+            pa.pop()
+        elif empty(pb[-1]):
+            pb.pop()
+        else:
+            break
+    while pa and pb:
+        if pa[0].eq(pb[0]):
+            pa.pop(0)
+            pb.pop(0)
+        elif empty(pa[0]):
+            pa.pop(0)
+        elif empty(pb[0]):
+            pb.pop(0)
+        else:
+            break
+    for x, u in ((pa, pb), (pb, pa)):
+        if len(x) == 1 and _is_atom(x[0]) and not _visible_decomps(interp, x[0]):
+            if any(p.eq(x[0]) for p in u):
+                continue       # would be circular
+            _decomps(interp, x[0]).append(_dec(interp, u if u else [z3.StringVal('')]))
+            return
+    for x, u in ((a, b), (b, a)):
+        if _is_piece(x) and not x.eq(u):
+            if _visible_decomps(interp, x):
+                continue
+            un = norm(interp, u)
+            if any(p.eq(x) for p in _flat_concat(un)):
+                continue       # would be circular
+            _decomps(interp, x).append(_dec(interp, _flat_concat(un)))
+            return
+
+
 # ------------------------------------------------------------------------------ searching
 
+def _occurrence(interp, t, u, reverse, base):
+    """t contains u: pieces (p, q) with t == p . u . q where the occurrence is the first (last if reverse) one.
+    For a constant u the constant itself is the middle piece and "no earlier occurrence" is stated as
+    `u not in p . u[:-1]` (`u not in u[1:] . q`), which characterises the position without IndexOf."""
+    st = interp.st
+    if z3.is_string_value(u) and not _has_escape_val(u) and len(u.as_string()) >= 1:
+        uv = u.as_string()
+        p = _fresh(interp, base)
+        q = _fresh(interp, base)
+        st.assume(t == z3.Concat(p, u, q))
+        _decomps(interp, t).append(_dec(interp, [p, u, q]))
+        note_concat(interp, t, [p, u, q])
+        if reverse:
+            st.assume(z3.Not(z3.Contains(_cat([z3.StringVal(uv[1:]), q]), u)))
+        else:
+            st.assume(z3.Not(z3.Contains(_cat([p, z3.StringVal(uv[:-1])]), u)))
+        return p, u, q
+    p, m, q = decompose(interp, t, [None, None, None], base)
+    st.assume(m == u)
+    if reverse:
+        st.assume(z3.LastIndexOf(t, u) == z3.Length(p))
+    else:
+        st.assume(z3.IndexOf(t, u, 0) == z3.Length(p))
+    return p, m, q
+
+
 def _find(interp, s, sub, start, reverse, raise_on_missing):
+    """find / rfind / index / rindex.  The result for the same (string, pattern, start) terms is computed once
+    per path (the pieces of the first evaluation are re-used), so that code and clauses that search for the
+    same thing talk about the same pieces."""
+    st = interp.st
+    t = _s(s)
+    u = _s(sub)
+    cache = st.ghost.setdefault('__finds__', {})
+    key = (t.get_id(), u.sexpr(), None if start is None else z3.simplify(_s(start)).sexpr(), bool(reverse))
+    ent = cache.get(key)
+    if ent is not None and _visible(interp, ent[1]):
+        r = ent[0]
+        if isinstance(r, int) and r == -1 and raise_on_missing:
+            raise _pyraise(ValueError('substring not found'))
+        return r
+    try:
+        r = _find_uncached(interp, s, sub, start, reverse, False)
+    except BaseException:
+        raise
+    cache[key] = (r, _dec(interp, []), t)
+    if isinstance(r, int) and r == -1 and raise_on_missing:
+        raise _pyraise(ValueError('substring not found'))
+    return r
+
+
+def _find_uncached(interp, s, sub, start, reverse, raise_on_missing):
     st = interp.st
     t = _s(s)
     u = _s(sub)
     if start is not None:
         a = _norm_index(start, z3.Length(t), interp)
         pre, rest = decompose(interp, t, [z3.simplify(a), None], 'from')
+        n_before = len(_decomps(interp, rest)) if z3.is_expr(rest) else 0
         r = _find(interp, wrap(rest), sub, None, reverse, raise_on_missing)
         if isinstance(r, int) and r == -1:
             return -1
+        # the occurrence found in the tail is also a decomposition of the whole string
+        if z3.is_expr(rest):
+            ds = _decomps(interp, rest)
+            if len(ds) > n_before and not (z3.is_string_value(pre) and pre.as_string() == ''):
+                _decomps(interp, t).append(_dec(interp, _flat_concat(pre) + list(ds[-1]), ds[-1]))
         return wrap(_s(r) + z3.Length(pre)) if not (isinstance(r, int) and r == -1) else -1
-    if z3.is_string_value(u) and len(_lit(u)) == 1:
+    if aligning(interp) and z3.is_string_value(u) and not _has_escape_val(u) and len(_lit(u)) == 1:
         loc = _locate_single(interp, t, _lit(u), reverse)
         if loc is not None and loc[0] == 'at':
             return wrap(z3.Length(loc[1]))
@@ -635,20 +688,13 @@ def _find(interp, s, sub, start, reverse, raise_on_missing):
             if raise_on_missing:
                 raise _pyraise(ValueError('substring not found'))
             return -1
-    if not st.fork(wrap(contains_term(interp, t, u))):
+    from . import charclass
+    charclass.contains_link_pattern(interp, t, u)
+    if not st.fork(wrap(z3.Contains(t, u))):
         if raise_on_missing:
             raise _pyraise(ValueError('substring not found'))
         return -1
-    p, m, q = decompose(interp, t, [None, None, None], 'find')
-    st.assume(m == u)
-    single = z3.is_string_value(u) and len(_lit(u)) == 1
-    if single:
-        st.assume(count_term(interp, q if reverse else p, _lit(u)) == 0)
-    else:
-        if reverse:
-            st.assume(z3.LastIndexOf(t, u) == z3.Length(p))
-        else:
-            st.assume(z3.IndexOf(t, u, 0) == z3.Length(p))
+    p, m, q = _occurrence(interp, t, u, reverse, 'find')
     return wrap(z3.Length(p))
 
 
@@ -657,23 +703,15 @@ def _split_once(interp, s, sep, reverse=False):
     st = interp.st
     t = _s(s)
     u = _s(sep)
-    if z3.is_string_value(u) and len(_lit(u)) == 1:
+    if aligning(interp) and z3.is_string_value(u) and not _has_escape_val(u) and len(_lit(u)) == 1:
         loc = _locate_single(interp, t, _lit(u), reverse)
         if loc is not None and loc[0] == 'at':
             return True, wrap(loc[1]), wrap(loc[2])
         if loc is not None and loc[0] == 'absent':
             return False, wrap(t), None
-    if not st.fork(wrap(contains_term(interp, t, u))):
+    if not st.fork(wrap(z3.Contains(t, u))):
         return False, wrap(t), None
-    p, m, q = decompose(interp, t, [None, None, None], 'split')
-    st.assume(m == u)
-    single = z3.is_string_value(u) and len(_lit(u)) == 1
-    if single:
-        st.assume(count_term(interp, q if reverse else p, _lit(u)) == 0)
-    elif reverse:
-        st.assume(z3.LastIndexOf(t, u) == z3.Length(p))
-    else:
-        st.assume(z3.IndexOf(t, u, 0) == z3.Length(p))
+    p, m, q = _occurrence(interp, t, u, reverse, 'split')
     return True, wrap(p), wrap(q)
 
 
@@ -692,19 +730,12 @@ def _strip(interp, s, chars, left, right):
     st = interp.st
     t = _s(s)
     if chars is None:
-        # Unicode white space: the result is an uninterpreted function of s (a part of s: not longer; the
-        # empty string stays empty).  Enough where the result is only passed on.
-        kind0 = ('l' if left else '') + ('r' if right else '')
-        f0 = z3.Function('str.%sstrip_ws' % {'lr': '', 'l': 'l', 'r': 'r'}[kind0], z3.StringSort(), z3.StringSort())
-        r0 = f0(t)
-        st.axiom(z3.Length(r0) <= z3.Length(t))
-        return wrap(r0)
+        from . import charclass
+        return charclass.strip_space(interp, s, left, right)
     if isinstance(chars, Sym) or not chars:
         raise Unsupported('strip with symbolic character set')
-    chars = ''.join(sorted(set(chars)))      # (the set of characters is what matters)
     kind = ('l' if left else '') + ('r' if right else '')
-    f = z3.Function('str.%sstrip_%s' % ({'lr': '', 'l': 'l', 'r': 'r'}[kind],
-                                        ''.join('u%04x' % ord(c) for c in chars)), z3.StringSort(),
+    f = z3.Function('str.%sstrip[%r]' % ({'lr': '', 'l': 'l', 'r': 'r'}[kind], chars), z3.StringSort(),
                     z3.StringSort())
     r = f(t)
     key = ('__strip__', kind, chars, t.get_id())
@@ -713,32 +744,55 @@ def _strip(interp, s, chars, left, right):
         cls = _char_class_re(chars)
         a = _fresh(interp, 'strip.l') if left else z3.StringVal('')
         b = _fresh(interp, 'strip.r') if right else z3.StringVal('')
-        # the definition of the function at this argument: holds in every context (not scoped)
-        st.axiom(t == _cat([a, r, b]))
-        # "consists of characters of `chars` only" is the additive measure all_in_<chars> (no regular
-        # expression: membership of a variable in a starred class is where the solvers get lost)
+        st.assume(t == _cat([a, r, b]))
         if left:
-            st.axiom(all_term(interp, a, all_in_name(chars)))
-            st.axiom(z3.And(*[z3.Not(z3.PrefixOf(z3.StringVal(c), r)) for c in chars]))
+            st.assume(z3.InRe(a, cls))
+            st.assume(z3.And(*[z3.Not(z3.PrefixOf(z3.StringVal(c), r)) for c in chars]))
         if right:
-            st.axiom(all_term(interp, b, all_in_name(chars)))
-            st.axiom(z3.And(*[z3.Not(z3.SuffixOf(z3.StringVal(c), r)) for c in chars]))
-        _add_decomp(interp, t, [x for x in (a, r, b) if not (z3.is_string_value(x) and x.as_string() == '')],
-                    universal=True)
+            st.assume(z3.InRe(b, cls))
+            st.assume(z3.And(*[z3.Not(z3.SuffixOf(z3.StringVal(c), r)) for c in chars]))
+        _decomps(interp, t).append(_dec(interp, [x for x in (a, r, b) if not (z3.is_string_value(x) and x.as_string() == '')]))
         note_concat(interp, t, [a, r, b])
     return wrap(r)
 
 
 def _upred(interp, name, s):
-    """uninterpreted character-class predicate (isalnum, isspace, ...): consistent, otherwise unknown"""
+    """character-class predicate (isalnum, isspace, ...): uninterpreted, except that its value on the empty
+    string and on every single ASCII character is the one CPython gives (ground facts, computed natively).
+    On one-character strings it is a predicate of the code point (keeps the character facts out of the
+    string theory, which is much faster)."""
+    f = z3.Function('str.' + name, z3.StringSort(), z3.BoolSort())
+    g = z3.Function('chr.' + name, z3.IntSort(), z3.BoolSort())
     t = _s(s)
     st = interp.st
-    if name in ALL_PREDS:
-        a = all_term(interp, t, name)
-        return wrap(z3.And(z3.Length(t) > 0, a) if ALL_PREDS[name] else a)
-    f = z3.Function('str.' + name, z3.StringSort(), z3.BoolSort())
-    st.axiom(z3.Not(f(z3.StringVal(''))))
-    return wrap(f(t))
+    if z3.is_string_value(t) and not _has_escape_val(t):
+        return bool(getattr(t.as_string(), name)())
+    key = '__upred_facts__' + name
+    if key not in st.ghost:
+        st.ghost[key] = True
+        st.assume(z3.Not(f(z3.StringVal(''))))
+        st.assume(z3.And(*[g(i) if getattr(chr(i), name)() else z3.Not(g(i)) for i in range(128)]))
+    if t.get_id() in st.ghost.get('__len1__', {}):
+        return wrap(g(z3.StrToCode(t)))
+    from . import charclass
+    if name in charclass.ALL_CHARS_PREDICATES:
+        # "there is at least one character and all characters are <name>"
+        return charclass.upred_of_string(interp, name, s)
+    return wrap(z3.If(z3.Length(t) == 1, g(z3.StrToCode(t)), f(t)))
+
+
+def known_single_char(interp, t):
+    """record that the term t is known (assumed) to have length 1"""
+    interp.st.ghost.setdefault('__len1__', {})[t.get_id()] = t
+
+
+def _charval(c):
+    return z3.Unit(z3.CharVal(ord(c))) if hasattr(z3, 'CharVal') else z3.StringVal(c)
+
+
+def _has_escape_val(t):
+    sv = t.as_string()
+    return '\\u{' in sv or '\\x' in sv
 
 
 def call_method(interp, recv, name, args, kwargs):
@@ -748,12 +802,23 @@ def call_method(interp, recv, name, args, kwargs):
     if name in ('startswith', 'endswith'):
         f = z3.PrefixOf if name == 'startswith' else z3.SuffixOf
         x = args[0]
-        if len(args) > 1:
-            raise Unsupported('%s with start/end' % name)
+        if len(args) > 2:
+            raise Unsupported('%s with end' % name)
+        if len(args) == 2:
+            if name == 'endswith':
+                raise Unsupported('endswith with start')
+            # s.startswith(x, start)  ==  start <= len(s) and s[start:].startswith(x)
+            start = args[1]
+            L = z3.Length(t)
+            a = z3.simplify(_norm_index(start, L, interp))
+            if not st.fork(wrap(_s(start) <= L)):
+                return False
+            tail = getitem(interp, recv, slice(wrap(a), None, None))
+            return call_method(interp, tail, name, [x], kwargs)
         tn = norm(interp, t)
         if isinstance(x, tuple):
             return wrap(z3.Or(*[f(_sn(interp, y), tn) for y in x])) if x else False
-        if isinstance(x, str) and len(x) == 1 and not st.no_fork:
+        if aligning(interp) and isinstance(x, str) and len(x) == 1 and not st.no_fork:
             r = z3.simplify(f(z3.StringVal(x), tn))
             if z3.is_true(r) or z3.is_false(r):
                 return z3.is_true(r)
@@ -788,8 +853,16 @@ def call_method(interp, recv, name, args, kwargs):
     if name in ('split', 'rsplit'):
         sep = args[0] if args else kwargs.get('sep')
         maxsplit = args[1] if len(args) > 1 else kwargs.get('maxsplit', -1)
-        if isinstance(sep, str) and len(sep) == 1 and isinstance(maxsplit, int) and maxsplit == -1:
-            return split_all(interp, recv, sep)
+        if sep is not None and isinstance(maxsplit, int) and maxsplit == -1 and isinstance(sep, str) and sep != '':
+            # all splits: a sequence of strings of unknown contents (weak model); its length is
+            # count(sep) + 1 for a single-character separator, at least 1 otherwise
+            from .api import ListOf, Str as _Str
+            out = ListOf(_Str, min_len=1).make(interp, 'split')
+            if len(sep) == 1:
+                f = count_fn(interp, sep)
+                _count_facts(interp, f, sep, t)
+                interp.st.assume(out.length == f(t) + 1)
+            return out
         if sep is None or maxsplit != 1:
             raise Unsupported('str.%s without separator or with maxsplit != 1' % name)
         found, a, b = _split_once(interp, recv, sep, reverse=(name == 'rsplit'))
@@ -804,6 +877,10 @@ def call_method(interp, recv, name, args, kwargs):
         return _strip(interp, recv, chars, name != 'rstrip', name != 'lstrip')
     if name == 'count':
         sub = args[0]
+        if isinstance(sub, str) and len(sub) == 1 and len(args) == 1 and not aligning(interp):
+            f = count_fn(interp, sub)
+            _count_facts(interp, f, sub, t)
+            return wrap(f(t))
         if isinstance(sub, str) and len(sub) == 1 and len(args) <= 3:
             if len(args) > 1:
                 # s.count(c, a, b) counts in the slice s[a:b]
@@ -811,7 +888,7 @@ def call_method(interp, recv, name, args, kwargs):
             return wrap(count_term(interp, t, sub))
         raise Unsupported('count of a non-single-character')
     if name in ('isspace', 'isalnum', 'isdigit', 'isalpha', 'isidentifier', 'isupper', 'islower', 'isnumeric',
-                'isdecimal', 'isprintable', 'isascii'):
+                'isdecimal', 'isprintable'):
         return _upred(interp, name, recv)
     if name in ('upper', 'lower', 'casefold', 'title', 'capitalize', 'swapcase', 'expandtabs'):
         f = z3.Function('str.' + name, z3.StringSort(), z3.StringSort())
@@ -819,7 +896,7 @@ def call_method(interp, recv, name, args, kwargs):
     if name == 'join':
         from . import models
         return models.m_str_join(interp, recv, args, kwargs)
-    if name == 'format' or name == '__mod__':
+    if name in ('format', 'format_map', '__mod__'):
         return SStr(_fresh(interp, 'fmt'))
     if name == 'replace':
         old, new = args[0], args[1]
@@ -829,7 +906,34 @@ def call_method(interp, recv, name, args, kwargs):
         if isinstance(old, str) and isinstance(new, str):
             if hasattr(z3, 'ReplaceAll'):
                 return wrap(z3.ReplaceAll(t, _s(old), _s(new)))
+            if len(old) == 1 and len(new) == 1 and old != new:
+                # all occurrences of one character by another: abstracted by what is true of the result
+                # (same length, the old character is gone, unchanged when it did not occur, and -- position
+                # by position -- a character other than the old one stays)
+                r = _fresh(interp, 'replaced')
+                o, nw = z3.StringVal(old), z3.StringVal(new)
+                st.assume(z3.Length(r) == z3.Length(t))
+                st.assume(z3.Not(z3.Contains(r, o)))
+                st.assume(z3.Implies(z3.Not(z3.Contains(t, o)), r == t))
+                st.assume(z3.Implies(z3.Length(t) > 0,
+                                     z3.If(z3.PrefixOf(o, t), z3.PrefixOf(nw, r),
+                                           z3.SubString(r, 0, 1) == z3.SubString(t, 0, 1))))
+                return SStr(r)
         raise Unsupported('str.replace (all occurrences) with symbolic pattern')
+    if name == 'zfill':
+        w = args[0]
+        if not isinstance(w, int) or isinstance(w, bool):
+            raise Unsupported('str.zfill with symbolic width')
+        # pad with zeros up to width w, after a leading sign: a case split on the (short) length, as a term
+        L = z3.Length(t)
+        signed = z3.Or(z3.PrefixOf(z3.StringVal('-'), t), z3.PrefixOf(z3.StringVal('+'), t))
+        res = t
+        for k in range(w - 1, -1, -1):
+            pad = z3.StringVal('0' * (w - k))
+            padded = z3.If(signed, z3.Concat(z3.SubString(t, 0, 1), pad, z3.SubString(t, 1, L - 1)),
+                           z3.Concat(pad, t))
+            res = z3.If(L == k, padded, res)
+        return wrap(res)
     if name == 'encode':
         raise Unsupported('str.encode on symbolic string')
     if name == '__len__':
@@ -837,7 +941,10 @@ def call_method(interp, recv, name, args, kwargs):
     if name == '__add__':
         return concat(interp, recv, args[0])
     if name == '__contains__':
-        return wrap(contains_term(interp, t, _s(args[0])))
+        return wrap(z3.Contains(norm(interp, t), _sn(interp, args[0])))
+    if name == 'splitlines' and (list(args) == [True] or (not args and kwargs == {'keepends': True})):
+        from . import textio
+        return textio.splitlines_keepends(interp, recv)
     if name in ('splitlines',):
         raise Unsupported('str.splitlines on symbolic string (give the function a contract / model)')
     if name in ('removeprefix', 'removesuffix'):
@@ -854,9 +961,19 @@ def call_method(interp, recv, name, args, kwargs):
     raise Unsupported('str.%s on symbolic string' % name)
 
 
+def _int_fns():
+    return (z3.Function('int.valid', z3.StringSort(), z3.BoolSort()),
+            z3.Function('int.value', z3.StringSort(), z3.IntSort()))
+
+
 def str_of_int(interp, n):
     t = n.t
-    return wrap(z3.If(t >= 0, z3.IntToStr(t), z3.Concat(z3.StringVal('-'), z3.IntToStr(-t))))
+    r = z3.If(t >= 0, z3.IntToStr(t), z3.Concat(z3.StringVal('-'), z3.IntToStr(-t)))
+    # trusted lemma (CPython): int(str(n)) == n for every int n -- instantiated at this n, so that a text
+    # that equals str(n) converts back to n without the solver having to invert int.to.str
+    valid, val = _int_fns()
+    interp.st.assume(z3.And(valid(r), val(r) == t))
+    return wrap(r)
 
 
 def int_of_str(interp, s):
@@ -865,125 +982,241 @@ def int_of_str(interp, s):
     predicate and value function."""
     st = interp.st
     t = _s(s)
-    valid = z3.Function('int.valid', z3.StringSort(), z3.BoolSort())
-    val = z3.Function('int.value', z3.StringSort(), z3.IntSort())
+    valid, val = _int_fns()
     digits = z3.Plus(z3.Range('0', '9'))
     plain = z3.InRe(t, digits)
     st.assume(z3.Implies(plain, z3.And(valid(t), val(t) == z3.StrToInt(t))))
     neg = z3.InRe(t, z3.Concat(z3.Re(z3.StringVal('-')), digits))
+    # '-' followed by decimal digits: valid, the negated value of the digits (so that int(str(n)) == n for n < 0)
+    st.assume(z3.Implies(neg, z3.And(valid(t), val(t) == -z3.StrToInt(z3.SubString(t, 1, z3.Length(t) - 1)))))
     if not st.fork(wrap(valid(t))):
         raise _pyraise(ValueError('invalid literal for int()'))
     return wrap(val(t))
 
 
-# ------------------------------------------------------------------------------ join measure / split
+def join_slist(interp, sep, xs):
+    """sep.join(xs) for a sequence of symbolic length.
 
-def _join_fn(sep):
-    name = 'join_' + ''.join('u%04x' % ord(c) for c in sep)
-    return z3.Function(name, z3.ArraySort(z3.IntSort(), z3.StringSort()), z3.IntSort(), z3.StringSort())
+    If the calling function has a loop spec 'join#k' for this join (M.loop(qname, 'join#k', ...)), the join is
+    interpreted from the Python model pyvc/pymodels/str_model.py with that invariant (loops.join_slist).  Otherwise:
 
-
-def _join_def(interp, J, sep, arr, n):
-    """instance at (arr, n) of the recursive definition of  sep.join(first n elements of arr)"""
-    st = interp.st
-    key = ('__join_def__', sep, arr.get_id(), z3.simplify(n).sexpr())
-    if key in st.ghost:
-        return
-    st.ghost[key] = (arr, n)
-    sv = z3.StringVal(sep)
-    st.axiom(z3.Implies(n <= 0, J(arr, n) == z3.StringVal('')))
-    st.axiom(z3.Implies(n == 1, J(arr, n) == z3.Select(arr, 0)))
-    st.axiom(z3.Implies(n >= 2, J(arr, n) == z3.Concat(J(arr, n - 1), sv, z3.Select(arr, n - 1))))
-
-
-def join_term(interp, xs, sep):
-    """sep.join(xs) for a symbolic list of strings: a measure J(array, length), defined by recursion on the
-    length; the instances that tie it to the way the list was built (append, removal of the last element,
-    str.split) are added where those operations happen."""
-    from .mlist import MList
+    The sequence is taken in its structural normal form (pieces: single elements and base
+    sequences, see seqs.parts_of).  The join of a *base* sequence b is an uninterpreted string
+    J(sep, b) -- a function of the (immutable) sequence, named by its uid -- about which only
+    `len(b) == 0 => J == ''` and `len(b) == 1 => J == b[0]` are stated.  The join of a concatenation is
+    composed from the joins of its pieces by the law
+        join(x ++ y) = join(y) if x is empty, join(x) if y is empty, else join(x) + sep + join(y)
+    which holds of Python's str.join for every x, y."""
+    from . import seqs, models, loops
+    from .interp import PyRaise
+    r = loops.join_slist(interp, sep, xs)
+    if r is not NotImplemented:
+        return r
     st = interp.st
     if not isinstance(sep, str):
-        raise Unsupported('str.join with symbolic separator over a symbolic-length sequence')
-    if not isinstance(xs, MList) or xs.shape != ('str',):
-        if isinstance(xs, MList) and xs.shape is None:
-            return ''
-        raise Unsupported('str.join over symbolic-length sequence that is not a list of strings (MListOf(Str))')
-    J = _join_fn(sep)
-    arr, n = xs.arrs[()], xs.length
-    t = J(arr, n)
-    _join_def(interp, J, sep, arr, n)
-    sv = z3.StringVal(sep)
-    # follow the recorded history of the list: each step is an instance of the definition plus the frame
-    # property (elements beyond the length do not matter)
-    h = xs.hist
-    cur = t
-    depth = 0
-    while h is not None and depth < 4:
-        kind = h[0]
-        if kind == 'append':
-            _, arr0, n0, v, prev = h
-            old = J(arr0, n0)
-            vt = _s(v)
-            st.axiom(cur == z3.If(n0 <= 0, vt, z3.Concat(old, sv, vt)))
-            if st.len_must_hold(n0 >= 1) and not _decomps(interp, cur):
-                _add_decomp(interp, cur, _flat_concat(norm(interp, z3.Concat(old, sv, vt))))
-            cur = old
-        elif kind == 'poplast':
-            _, arr0, n0, prev = h          # state before: (arr0, n0); now (arr0, n0 - 1)
-            before = J(arr0, n0)
-            last = z3.Select(arr0, n0 - 1)
-            st.axiom(z3.Implies(n0 >= 2, before == z3.Concat(cur, sv, last)))
-            st.axiom(z3.Implies(n0 == 1, before == last))
-            if st.len_must_hold(n0 >= 2) and not _decomps(interp, before):
-                _add_decomp(interp, before, _flat_concat(norm(interp, z3.Concat(cur, sv, last))))
-            cur = before
-        elif kind == 'is':
-            # the list was created with a known joined value (str.split)
-            _, whole = h[:2]
-            prev = None
-            if not cur.eq(whole):
-                st.axiom(cur == whole)
-                if not _decomps(interp, cur):
-                    _add_decomp(interp, cur, _flat_concat(norm(interp, whole)))
+        raise Unsupported('str.join over symbolic-length sequence with symbolic separator')
+    acc_t, acc_n = None, None
+    for kind, v in seqs.parts_of(xs):
+        if kind == 'elem':
+            if isinstance(v, (SOpt, SChoice)):
+                v = interp.resolve(v)
+            if not isinstance(v, (SStr, str)):
+                raise _pyraise(TypeError('sequence item: expected str instance'))
+            t, n = _s(v), z3.IntVal(1)
         else:
-            break
-        h = prev
-        depth += 1
+            t, n = _join_of_base(interp, sep, v), v.length
+        if acc_t is None:
+            acc_t, acc_n = t, n
+        else:
+            joined = z3.Concat(acc_t, z3.StringVal(sep), t) if sep else z3.Concat(acc_t, t)
+            acc_t = z3.If(acc_n == 0, t, z3.If(n == 0, acc_t, joined))
+            acc_n = acc_n + n
+    if acc_t is None:
+        return ''
+    return wrap(z3.simplify(acc_t))
+
+
+def _join_of_base(interp, sep, b):
+    from . import models
+    from .interp import PyRaise
+    st = interp.st
+    key = ('__join__', sep, b.uid)
+    t = st.ghost.get(key)
+    if t is not None:
+        return t
+    t = z3.String('join[%r](%s)' % (sep, b.uid))
+    st.ghost[key] = t
+    st.assume(z3.Implies(b.length == 0, t == z3.StringVal('')))
+    # elements must be strings (else Python raises TypeError); len 1: the join is the element
+    st.no_fork += 1
+    try:
+        with st.scope(b.length >= 1):
+            if st.check() != z3.unsat:
+                e0 = models.slist_elem(interp, b, z3.IntVal(0))
+                if not isinstance(e0, (SStr, str)):
+                    raise Unsupported('str.join over symbolic-length sequence of non-strings')
+                first = _s(e0)
+            else:
+                first = None
+    except PyRaise as e:
+        raise Unsupported('str.join: element access raises %r' % (e.exc,))
+    finally:
+        st.no_fork -= 1
+    if first is not None:
+        st.assume(z3.Implies(b.length == 1, t == first))
     return t
 
 
-def join_slist(interp, sep, xs):
-    return wrap(join_term(interp, xs, sep))
+# ------------------------------------------------------------------------------ forgetting dead pieces
+
+def _consts_of_term(t, acc, seen):
+    todo = [t]
+    while todo:
+        x = todo.pop()
+        i = x.get_id()
+        if i in seen:
+            continue
+        seen.add(i)
+        if z3.is_quantifier(x):
+            todo.append(x.body())
+            continue
+        if z3.is_const(x) and x.decl().kind() == z3.Z3_OP_UNINTERPRETED:
+            acc.add(i)
+        else:
+            todo.extend(x.children())
 
 
-def split_all(interp, s, ch):
-    """s.split(ch) for a single character ch: the list L with ch.join(L) == s, len(L) == count(ch, s) + 1 and
-    no element containing ch.  Given through: the length, the join measure, the last element (aligned with
-    the known pieces of s) and the join of the others."""
-    from .mlist import MList, from_concrete
+def _consts_of_value(v, acc, seen_terms, seen_objs, depth=0):
+    if depth > 8 or v is None or isinstance(v, (bool, int, str, float, bytes, type)):
+        return
+    if z3.is_expr(v):
+        _consts_of_term(v, acc, seen_terms)
+        return
+    oid = id(v)
+    if oid in seen_objs:
+        return
+    seen_objs.add(oid)
+    if isinstance(v, (SInt, SBool, SStr)):
+        _consts_of_term(v.t, acc, seen_terms)
+        return
+    if isinstance(v, SOpt):
+        _consts_of_term(v.is_none, acc, seen_terms)
+        _consts_of_value(v.val, acc, seen_terms, seen_objs, depth + 1)
+        return
+    if isinstance(v, SChoice):
+        _consts_of_term(v.idx, acc, seen_terms)
+        for a in v.alts:
+            _consts_of_value(a, acc, seen_terms, seen_objs, depth + 1)
+        return
+    if isinstance(v, (list, tuple, set, frozenset)):
+        for x in v:
+            _consts_of_value(x, acc, seen_terms, seen_objs, depth + 1)
+        return
+    if isinstance(v, dict):
+        for x in v.values():
+            _consts_of_value(x, acc, seen_terms, seen_objs, depth + 1)
+        return
+    import types as _types
+    if isinstance(v, (_types.FunctionType, _types.ModuleType, _types.BuiltinFunctionType)):
+        return
+    for attr in ('__dict__',):
+        d = getattr(v, attr, None)
+        if isinstance(d, dict):
+            for x in list(d.values()):
+                _consts_of_value(x, acc, seen_terms, seen_objs, depth + 1)
+    sl = getattr(type(v), '__slots__', None)
+    if sl:
+        for k in type(v).__mro__:
+            for name in getattr(k, '__slots__', ()) or ():
+                try:
+                    _consts_of_value(getattr(v, name), acc, seen_terms, seen_objs, depth + 1)
+                except AttributeError:
+                    pass
+
+
+def forget_dead_pieces(interp):
+    """At a loop head (after the havoc): string pieces introduced by earlier decompositions that no live
+    value refers to any more are existential witnesses of facts about the past (e.g. the position found by
+    a `find` whose result was just havocked).  The conjuncts of the path condition that mention such dead
+    pieces are dropped, and the decomposition registry forgets them, so that new slices of the same string
+    are not related to stale boundaries.  Dropping assumptions only weakens what obligations are proved
+    from: it is sound, and keeps the string solvers away from aligning unrelated decompositions."""
     st = interp.st
-    t = _s(s)
-    loc = _locate_single(interp, t, ch, True)
-    if loc is None:
-        raise Unsupported('str.split in a context where no case split is possible')
-    if loc[0] == 'absent':
-        xs = from_concrete(interp, [wrap(t)], 'split')
-        xs.hist = ('is', t, None)
-        return xs
-    head, last = loc[1], loc[2]
-    xs = MList(interp, st.fresh_name('split'), ('str',))
-    n = st.fresh_int('split.len')
-    st.assume(n == count_term(interp, t, ch) + 1)
-    st.assume(n >= 2)
-    xs.length = n
-    arr = xs.arrs[()]
-    J = _join_fn(ch)
-    st.assume(z3.Select(arr, n - 1) == last)
-    st.assume(J(arr, n) == t)
-    st.assume(J(arr, n - 1) == head)
-    # no element contains the separator
-    j = z3.Int('j!split')
-    f = count_fn(interp, ch)
-    st.assume(z3.ForAll([j], z3.Implies(z3.And(j >= 0, j < n), f(z3.Select(arr, j)) == 0)))
-    xs.hist = ('is', t, None)
-    return xs
+    pieces = st.ghost.get('__pieces__')
+    if not pieces or os.environ.get('PYVC_KEEP_DEAD_PIECES') or aligning(interp):
+        # (with alignment the pieces are the vocabulary later cuts and searches are related to: kept)
+        return
+    live = set()
+    seen_terms, seen_objs = set(), set()
+    for fr in interp.frame_stack:
+        _consts_of_value(fr.locals, live, seen_terms, seen_objs)
+        for d in fr.enclosing:
+            _consts_of_value(d, live, seen_terms, seen_objs)
+    _consts_of_value(interp.reg.ghost_env, live, seen_terms, seen_objs)
+    _consts_of_value(getattr(interp, 'root_values', None), live, seen_terms, seen_objs)
+    _consts_of_value(st.trace, live, seen_terms, seen_objs)
+    _consts_of_value([v for k, v in st.ghost.items() if not (isinstance(k, str) and k.startswith('__'))
+                      and not isinstance(k, tuple)], live, seen_terms, seen_objs)
+    if interp.collect is not None:
+        _consts_of_value(interp.collect[1], live, seen_terms, seen_objs)
+    # obligations recorded so far keep their own copy of the path condition
+    conj = []
+    for t in list(st.pc) + list(st.scopes):
+        acc = set()
+        _consts_of_term(t, acc, set())
+        conj.append(acc & set(pieces))
+    live_pieces = set(pieces) & live
+    changed = True
+    while changed:
+        changed = False
+        for acc in conj:
+            if acc and (acc & live_pieces) and not acc <= live_pieces:
+                live_pieces |= acc
+                changed = True
+    dead = set(pieces) - live_pieces
+    if not dead:
+        return
+    n_pc = len(st.pc)
+    keep = [t for t, acc in zip(st.pc, conj[:n_pc]) if not (acc & dead)]
+    if len(keep) != n_pc:
+        st.reset_pc(keep)
+    for i in dead:
+        pieces.pop(i, None)
+
+    def dead_term(x):
+        acc = set()
+        _consts_of_term(x, acc, set())
+        return bool(acc & dead)
+
+    decs = st.ghost.get('__decomps__')
+    if decs:
+        for key in list(decs):
+            t, lst = decs[key]
+            if dead_term(t):
+                del decs[key]
+                continue
+            lst[:] = [pcs for pcs in lst if not any(dead_term(p) for p in pcs)]
+    sl = st.ghost.get('__slices__')
+    if sl:
+        for key in list(sl):
+            res, t = sl[key][0], sl[key][1]
+            if dead_term(t) or (isinstance(res, Sym) and dead_term(_s(res))):
+                del sl[key]
+    tw = st.ghost.get('__takewhile__')
+    if tw:
+        for key in list(tw):
+            r, _d, t = tw[key]
+            if dead_term(t) or (isinstance(r, Sym) and dead_term(_s(r))):
+                del tw[key]
+    fc = st.ghost.get('__finds__')
+    if fc:
+        for key in list(fc):
+            r, _d, t = fc[key]
+            if dead_term(t) or (isinstance(r, Sym) and dead_term(_s(r))):
+                del fc[key]
+    cc = st.ghost.get('__concats__')
+    if cc:
+        cc[:] = [(w, ps, sc) for (w, ps, sc) in cc if not dead_term(w) and not any(dead_term(p) for p in ps)]
+    ni = st.ghost.get('__notin__')
+    if ni:
+        ni[:] = [(d, x, c) for (d, x, c) in ni if not dead_term(x)]
